@@ -196,7 +196,7 @@ func (c *Cluster) Exec(a Action) bool {
 		if n := c.Nodes[a.Node]; n == nil || !n.Running() {
 			return false
 		}
-		c.ArmCrash(a.Node, a.K, a.Before)
+		c.ArmCrashTorn(a.Node, a.K, a.Before, a.Sel) // Sel > 0: a crash that falls on a log append happens inside it (torn tail)
 	case "restart":
 		n := c.Nodes[a.Node]
 		if n == nil || !n.Stopped() || !n.everStarted {
